@@ -23,6 +23,9 @@ fn zone_count(pattern: u8, seg: usize, az: usize) -> usize {
         2 => 25,
         3 => (az + seg) % 26,
         4 => if az % 90 == 0 { 20 } else { 2 },
+        // large, non-monotone counts (beyond any plausible fixed buffer: 64, 256, 1024 bytes/entries)
+        5 => [100, 70, 300, 65, 64, 66, 0, 257, 1, 1100, 90][(az + seg) % 11],
+        6 => if az == 200 { 5000 } else if az == 201 { 80 } else { (az % 3) * 40 },
         _ => 1,
     }
 }
@@ -172,7 +175,7 @@ pub fn run(ctx: &'static Ctx) -> (&'static str, Value, Vec<&'static str>) {
     let mut stats = s1;
     let seg_small: Vec<u16> = if thorough { vec![0, 1, 2, 3, 5] } else { vec![0, 1, 2] };
     for n in seg_small {
-        for pattern in 0..=4u8 {
+        for pattern in 0..=6u8 {
             let sh = Shape { segments: n, pattern, date: 1 + n, time: 1439 };
             check_shape(ctx, &sh, &mut stats);
             stats.nontrivial(format!("s{n}p{pattern}").as_bytes());
@@ -196,6 +199,36 @@ pub fn run(ctx: &'static Ctx) -> (&'static str, Value, Vec<&'static str>) {
             other => ctx.fail("decode:well_formed_rejected:zone65535", || format!("{:?}", other.ret().map(|r| r.is_ok())), || json!({"op": "big_zone"})),
         }
     }
+    // history: two different maps decoded back to back on a fresh thread must each equal the
+    // result of decoding them alone
+    {
+        let shapes: Vec<Shape> = vec![
+            Shape { segments: 1, pattern: 5, date: 3, time: 3 },
+            Shape { segments: 2, pattern: 1, date: 4, time: 4 },
+            Shape { segments: 1, pattern: 6, date: 5, time: 5 },
+            Shape { segments: 0, pattern: 0, date: 6, time: 6 },
+            Shape { segments: 3, pattern: 3, date: 7, time: 7 },
+        ];
+        let hs = std::sync::Mutex::new(Stats::new());
+        for_each_history(shapes.len(), 2, |w| {
+            let mut st = Stats::new();
+            for i in w {
+                check_shape(ctx, &shapes[*i], &mut st);
+            }
+            st.count("history_sequences", 1);
+            let mut g = hs.lock().unwrap_or_else(|e| e.into_inner());
+            let old = std::mem::take(&mut *g);
+            *g = old.merge(st);
+        });
+        stats = stats.merge(hs.into_inner().unwrap_or_else(|e| e.into_inner()));
+        use crate::guard::{short_read_check, SplitReader};
+        for sh in [Shape { segments: 1, pattern: 1, date: 5, time: 5 }, Shape { segments: 1, pattern: 5, date: 5, time: 5 }] {
+            let (bytes, _) = build(&sh);
+            let n = short_read_check(ctx, "decode_clutter_filter_map", &bytes, false, |r: &mut SplitReader| cfm::decode_clutter_filter_map(r).ok(), |shape| json!({"op": "short_read", "segments": sh.segments, "pattern": sh.pattern, "boundaries": shape.0, "max_chunk": shape.1}));
+            stats.evaluations += n;
+            stats.count("short_read_shapes", n);
+        }
+    }
     // truncations: every cut of the 1-segment/1-zone map and of a 2-segment mixed map
     check_truncations(ctx, &Shape { segments: 1, pattern: 1, date: 5, time: 5 }, 1, &mut stats);
     check_truncations(ctx, &Shape { segments: 2, pattern: 3, date: 5, time: 5 }, if thorough { 1 } else { 3 }, &mut stats);
@@ -205,7 +238,7 @@ pub fn run(ctx: &'static Ctx) -> (&'static str, Value, Vec<&'static str>) {
     }
     stats.sample(2, || json!({"shape": {"segments": 2, "pattern": "zones = (az+seg) mod 26"}, "bytes": build(&Shape{segments:2,pattern:3,date:5,time:5}).0.len()}));
     let cov = stats.coverage(
-        "all segment counts 0..=255 (1 zone/azimuth); counts {0,1,2[,3,5]} x 5 zone-count patterns (0, 1, 25, (az+seg) mod 26, mixed 20/2); one azimuth with 65535 zones; every truncation point of the 1-segment map and of a 2-segment mixed map (thorough: two more). Oracle = the encoder's own structure. non-trivial = distinct shape / cut",
+        "all segment counts 0..=255 (1 zone/azimuth); counts {0,1,2[,3,5]} x 7 zone-count patterns (0, 1, 25, (az+seg) mod 26, mixed 20/2, large non-monotone 0..1100, a 5000-zone azimuth followed by an 80-zone one); every ordered pair of five maps decoded back to back on a fresh thread; short-read reader shapes; one azimuth with 65535 zones; every truncation point of the 1-segment map and of a 2-segment mixed map (thorough: two more). Oracle = the encoder's own structure. non-trivial = distinct shape / cut",
         true,
         json!({}),
     );
